@@ -152,6 +152,11 @@ class C04:
             ins.append(("well-known-call", b))
         for b in P.batch_programs() + P.sloppy_text_programs():
             ins.append(("directed", b))
+        for b in (P.dag_tuple_programs() + P.magic_prefix_programs() + P.nested_tuple_key_programs() + P.bytestring_tuple_key_programs()):
+            ins.append(("directed", b))
+        for t in P.escape_sequence_lines():
+            ins.append(("escape", b"V" + t + b"\n."))
+            ins.append(("escape", b"S'" + t + b"'\n."))
         # the latin-1 text forms of bytes / bytearray with a text that is not what an encoder writes: every last byte, truncated
         # and over-long UTF-8, code points above U+00FF
         for t in range(0x7f, 0x100):
@@ -335,6 +340,20 @@ class C10:
             cfgd, su = rng.random() < 0.5, rng.random() < 0.5
             g = V.ValueGen(rng, pydict=cfgd, su=su, canonical=True, maxdepth=3)
             vals.append((rng.randint(0, 5), su, g.value()))
+        # values whose text could be taken for opcodes if a length or a line were written wrongly: strings of exactly 255 / 256 /
+        # 257 / 65535 / 65536 bytes that begin with STOP or with a complete small pickle, names of globals and persistent ids with
+        # a newline followed by opcodes (at protocols that must refuse them, and at those that can carry them)
+        for n in ((255, 256, 257, 65535, 65536) if ctx.thorough else (255, 256, 257)):
+            for head in (b".", b"N.", b"K\x01.", b"I1\n."):
+                body = head + b"." * (n - len(head))
+                for kind in ("S", "Y", "B", "A"):
+                    for p in range(6):
+                        vals.append((p, rng.random() < 0.5, (kind, body)))
+        for m, nm in ((b"foo", b"bar\n."), (b"foo", b"bar\nN."), (b"fo\n.", b"bar"), (b"m", b"n\n.\n."), (b"m", b"\n.")):
+            for p in range(6):
+                for su in (False, True):
+                    vals += [(p, su, ("C", m, nm)), (p, su, ("c", m, nm, [("I", 1)])), (p, su, ("l", [("C", m, nm), ("I", 2)])),
+                             (p, su, ("R", ("S", m + b"\n" + nm)))]
         enc_lines = [f"enc {p} {int(su)} - {V.render(v, sort=False)}" for p, su, v in vals]
         self.from_encode = set()
         for a in C.run_go(enc_lines):
@@ -508,6 +527,8 @@ class C16:
         rng = ctx.rng
         ins = own_corpus("C16") + self.mark_programs() + corpus_files(ctx.scale(400, None)) + P.well_known_call_programs()
         ins += P.batch_programs() + P.sloppy_text_programs()
+        ins += P.dag_tuple_programs() + P.magic_prefix_programs() + P.nested_tuple_key_programs() + P.bytestring_tuple_key_programs()
+        ins += [b"V" + t + b"\n." for t in P.escape_sequence_lines()]
         base = corpus_files(300) or [b"K\x01."]
         for _ in range(ctx.scale(800, 20000)):
             ins.append(P.mutate(rng, rng.choice(base)))
@@ -666,6 +687,27 @@ class C11:
             return rng.choice(forms) + b"."
         for _ in range(ctx.scale(150, 2000)):
             streams.append([payload_pickle() for _ in range(rng.randint(3, 9))])
+        # dict keys whose TYPE is the same and whose hashability is a matter of content (a Ref with a text id, then a Ref with a tuple /
+        # list id; a Tuple of numbers, then a Tuple holding a list; a Call likewise): what one pickle's keys went through must not
+        # vouch for the next pickle's
+        good_keys = [b"Vabc\nQ", b"K\x01Q", b"K\x01K\x02\x86", b"Vx\n\x85", b"cm\nn\nK\x01\x85R", b"NQ", b"K\x01QQ"]
+        bad_keys = [b"K\x01K\x02\x86Q", b"]Q", b"]\x85", b"K\x01]\x86", b"cm\nn\n]\x85R", b"}Q", b"]QQ", b"\x80\x05\x96\x01\x00\x00\x00\x00\x00\x00\x00aQ"]
+        def dict_with(k, style):
+            return {0: b"}" + k + b"Ns.", 1: b"(" + k + b"Nd.", 2: b"}(" + k + b"Nu."}[style]
+        for gk in good_keys:
+            for bk in bad_keys:
+                for st1 in (0, 1, 2):
+                    st2 = rng.randint(0, 2)
+                    streams.append([dict_with(gk, st1), dict_with(bk, st2)])
+                    streams.append([dict_with(gk, st1), dict_with(gk, st2), dict_with(bk, st1), dict_with(gk, 0)])
+        # an empty payload right after a non-empty one of another (or the same) kind, across pickles
+        empties = [b"U\x00.", b"\x80\x03C\x00.", b"T\x00\x00\x00\x00.", b"X\x00\x00\x00\x00.", b"\x8c\x00.", b"B\x00\x00\x00\x00.",
+                   b"\x96\x00\x00\x00\x00\x00\x00\x00\x00.", b"V\n.", b"S''\n."]
+        fulls = [b"U\x05hello.", b"\x80\x03C\x03abc.", b"X\x03\x00\x00\x00xyz.", b"T\x02\x00\x00\x00pq.", b"Vtext\n.", b"\x8c\x04four."]
+        for e in empties:
+            for f in fulls:
+                streams.append([f, e])
+                streams.append([f, e, f, e])
         for ps in streams:
             cfg = rng.choice(CFGS)
             lines.append(f"decsp {cfg} - {hexs(b''.join(ps))}")
@@ -804,7 +846,7 @@ class C14:
                     directed.append(a + sep + b2 + sep)
                     directed.append(a + sep + b2)
         import pickle as _pickle
-        directed += P.sloppy_text_programs()
+        directed += P.sloppy_text_programs() + P.magic_prefix_programs()
         directed += [_pickle.dumps(o, pr) for o in (bytearray(b"abc"), b"", [bytearray(b"x"), b"y"], {"k": bytearray()}) for pr in (2, 3, 4, 5)]
         ins += directed
         force_all = set(directed)
@@ -954,6 +996,11 @@ class C17:
                         for cfg in ("00", "10"):
                             lines.append(f"dec {cfg} - {hexs(prog)}")
                             meta.append((op, cfg, depth, False, "deep-" + str(kind)))
+        # hashable keys of any depth / mixed string kinds: accepted in PyDict mode whatever the nesting
+        for prog in P.nested_tuple_key_programs() + P.bytestring_tuple_key_programs():
+            for cfg in ("00", "10", "11"):
+                lines.append(f"dec {cfg} - {hexs(prog)}")
+                meta.append(("HASHABLE", cfg, 0, True, "nested-hashable"))
         # an unhashable key that has the same Go type as an acceptable key assigned just before it in the same batch
         # (Ref{1} then Ref{[]}; Ref{Ref{1}} then Ref{Ref{[]}}): hashability is not a property of the dynamic type
         goods = [b"I1\nQ", b"K\x02QQ", b"Vid\nQ", b"Pabc\n", b"NQ"]
@@ -989,6 +1036,8 @@ class C17:
                 must_fail = (not is_tuple) or (not pyd)
                 if must_fail and not g.startswith("ERR"):
                     ctx.violate("a pickle using an unhashable dict key did not make Decode return an error", line, "ERR …", g)
+                if op == "HASHABLE" and pyd and not g.startswith("OK"):
+                    ctx.violate("a hashable key (tuples of hashable items, at any depth) was rejected in PyDict mode", line, "OK …", g)
         # direct API
         dl, dm = [], []
         bad_keys = ["l( )", "A01", "t( l( I1 ) )", "t( I1 t( A- ) )", "c( C6d.6e l( ) )", "R( l( ) )", "R( t( A01 ) )", "d( )",
@@ -1072,6 +1121,25 @@ def enc_project(ans):
 def enc_tie(ctx, line, g, l, v):
     multi = V.max_entries(v) > 1
     return ctx.tie(line, g, l, project=enc_project if multi else None)
+
+
+def second_encode_tie(ctx, cases, what):
+    """ONE Encoder, two Encode calls (the first may fail for a documented reason or succeed): what the second call writes or refuses
+    must be exactly what the model says for its own argument - an Encoder keeps nothing from one call to the next (no header
+    written "once per stream", no remembered error, no left-over bytes)."""
+    lines = [f"enc2 {p} {int(su)} {rh} {V.render(a, sort=False)} ;; {V.render(b, sort=False)}" for p, su, rh, a, b in cases]
+    mlines = [f"enc {p} {int(su)} {rh} {V.render(b, sort=False)}" for p, su, rh, a, b in cases]
+    go = C.run_sharded(C.run_go, lines)
+    lean = C.run_sharded(C.run_lean, mlines)
+    for line, (p, su, rh, a, b), g, l in zip(lines, cases, go, lean):
+        ctx.evaluations += 1
+        ctx.count(what + ":" + g.split(" ")[0])
+        if "PANIC" in g or g.startswith("CRASH"):
+            ctx.violate("Encode panicked on an Encoder that was used before", line[:3000], "bytes or an error", g[:300])
+            continue
+        if not enc_tie(ctx, line[:4000], g, l, b):
+            ctx.violate("the second Encode call on one Encoder does not write what a new Encoder writes for the same value", line[:3000],
+                        l[:600], g[:600])
 
 
 class C18:
@@ -1159,6 +1227,27 @@ class C18:
                     for su in (0, 1):
                         lines.append(f"enc {p} {su} {rh} {V.render(shape, sort=False)}")
                         meta.append(("enc", (rh, p, shape, V.contains(shape, lambda x: x[0] == "d"), bool(su))))
+        # one Encoder for several objects: after an object whose id protocol 0 cannot write (tuple id, id with a newline) was
+        # refused, the next object's id is asked for and written as if the Encoder were new
+        x1, x2 = ("X", 1), ("X", 2)
+        reuse = []
+        for p in range(6):
+            for su in (False, True):
+                for rh in ("S", "T", "N", "E"):
+                    for a in (x1, ("l", [x1, x2]), ("R", ("t", [("I", 1)])), ("R", ("S", b"a\nb")), ("I", 5)):
+                        for b in (x2, ("t", [x2, ("I", 1)]), ("R", ("S", b"ok")), ("l", [x1])):
+                            reuse.append((p, su, rh, a, b))
+        if not ctx.thorough:
+            reuse = rng.sample(reuse, 400)
+        second_encode_tie(ctx, reuse, "encoder-reuse")
+        # records of two pickles read by one Decoder (a class pickle, then a state pickle whose persistent ids fetch what the first
+        # pickle memoized - the layout ZODB writes): the memo outlives a pickle, the hook sees the fetched objects
+        for cls in (b"cmod\nKlass\nq\x01.", b"\x80\x02cmod\nKlass\nq\x01K\x07q\x02."):
+            for state in (b"(U\x08oid00001h\x01tQ.", b"\x80\x02U\x03oidh\x01\x86Q.", b"(h\x01Qh\x01Ql.", b"\x80\x02}U\x01kU\x02o1h\x01\x86Qs.",
+                          b"h\x01.", b"(Pabc\nh\x01t."):
+                for hook in ("-", "K", "R"):
+                    lines.append(f"decs {rng.choice(CFGS)} {hook} {hexs(cls + state)}")
+                    meta.append(("dec", hook))
         go, lean = run_both(lines)
         self.run_holders(ctx)
         self.run_nested_ids(ctx)
@@ -1441,6 +1530,17 @@ class C19:
                 for su in "01":
                     lines.append(f"dec {rng.choice('01')}{su} - {hexs(b'(' + first + form + form + b't.')}")
                     meta.append(("empty-after", name, None))
+        # UNICODE lines made of backslash tokens in every order (what other picklers and hand-written pickles contain): the text is
+        # what Python's raw-unicode-escape decoder gives
+        for t in P.escape_sequence_lines():
+            try:
+                want = t.decode("raw-unicode-escape").encode("utf-8")
+            except (UnicodeDecodeError, UnicodeEncodeError):
+                want = None
+            prog = b"V" + t + b"\n."
+            for su in "01":
+                lines.append(f"conv {rng.choice('01')}{su} {hexs(prog)}")
+                meta.append(("uniline", "UNICODE-escapes", want))
         # one integer, two representations, one Dict entry
         for n in rng.sample(sorted(i for i in ints if -2 ** 200 < i < 2 ** 200), ctx.scale(150, 2000)):
             fs = int_forms(n)
@@ -1466,6 +1566,10 @@ class C19:
                         "uni": f"I:ERR S:{h} B:ERR", "bytes": f"I:ERR S:ERR B:{h}", "bytearray": "I:ERR S:ERR B:ERR"}[k]
                 if g != want:
                     ctx.violate(f"AsString/AsBytes on the value decoded from {name} (StrictUnicode={su})", line[:400], want, g)
+            elif kind == "uniline":
+                if info is not None and g != f"I:ERR S:{hexs(info)} B:ERR":
+                    ctx.violate("AsString on the value decoded from a UNICODE line with backslash escapes", line[:400],
+                                f"I:ERR S:{hexs(info)} B:ERR", g)
             elif kind == "empty-after":
                 m = re.match(r"OK t\( \S+ (\S+) (\S+) \) \d+$", g)
                 if not m or m.group(1)[1:] != "-" or m.group(2)[1:] != "-":
